@@ -11,7 +11,7 @@ import (
 func returnsBool(want bool) Ev {
 	return func(it Item) bool {
 		r, ok := it.In.(*ssa.Return)
-		return ok && len(r.Results) == 1 && ConstBool(want)(r.Results[0])
+		return ok && len(r.Results) == 1 && ConstBool(want)(RetVals(r)[0])
 	}
 }
 
